@@ -1,6 +1,8 @@
 import LitexProofs.Mem
 import LitexProofs.Wishbone.Sram
 import LitexProofs.Wishbone.Conv
+import LitexProofs.Wishbone.Remap
+import LitexProofs.Wishbone.ToCsr
 /-
   C07 — Wishbone adapters and memories are transparent to the master: flat byte-addressable memory semantics.
 
@@ -112,21 +114,62 @@ theorem up_refines (c : UpCfg) (hpos : 0 < c.nbm) (M0 : Mem) (ins : List (Req ×
 theorem down_ack_iff (c : DownCfg) (s : DownState) (r : Req) (rsp : Rsp) :
     (Down.toMaster c s r rsp).ack = (r.active && (rsp.ack || Down.skip c s r) && Down.done c s) := rfl
 
-/-! ## Compositions with the real SRAM model (the SoC's usual stacks) -/
+/-! ## Remapper -/
 
-theorem mod_split (ratio dm a k : Nat) (hk : k < ratio) (hdm : 0 < dm) :
-    (k + ratio * a) % (ratio * dm) = k + ratio * (a % dm) := by
-  have h1 : k + ratio * a = k + ratio * (a % dm) + ratio * dm * (a / dm) := by
-    have := Nat.div_add_mod a dm
-    calc k + ratio * a = k + ratio * (dm * (a / dm) + a % dm) := by rw [this]
-      _ = k + ratio * (a % dm) + ratio * dm * (a / dm) := by
-        rw [Nat.mul_add, Nat.mul_assoc]; omega
-  have h2 : k + ratio * (a % dm) < ratio * dm := by
-    have := Nat.mod_lt a hdm
-    calc k + ratio * (a % dm) < ratio + ratio * (a % dm) := by omega
-      _ = ratio * (a % dm + 1) := by rw [Nat.mul_add, Nat.mul_one, Nat.add_comm]
-      _ ≤ ratio * dm := Nat.mul_le_mul_left _ this
-  rw [h1, Nat.add_mul_mod_self_left, Nat.mod_eq_of_lt h2]
+/-- **`wishbone.Remapper` is transparent up to its address map**: through the remapper the master sees the
+    slave's byte memory at the translated word address `Remap.mapAdr c adr` (origin/mask, then the last active
+    region) — for every origin, size, region list, signal widths and slave latency. -/
+theorem remap_refines (c : RemapCfg) (nb : Nat) (M0 : Mem) (ins : List (Req × Lat))
+    (hm : Classic ((remapper c).over (latMem nb M0)) ins) :
+    Consistent nb M0 (ops ((remapper c).over (latMem nb M0)) (Remap.mapAdr c) ins) ∧
+    AckOnlyStrobed ((remapper c).over (latMem nb M0)) ins := by
+  rw [remapper_eq] at hm ⊢
+  exact (AdrAdapter.refines (Remap.mapAdr c) (latMem nb M0) id nb (fun t _ M => t = M) (fun _ => True) (fun _ => True)
+      (fun _ _ _ => trivial) (latMem_refines nb M0)).run M0 rfl ins hm (fun _ _ => trivial)
+
+/-- What the map is, without regions: `(origin >> shift) | (adr & mask)` truncated to the slave address width. -/
+theorem remap_origin_mask (c : RemapCfg) (h : c.regions = []) (a : Nat) :
+    Remap.mapAdr c a = ((c.origin >>> c.shift) ||| (a % 2 ^ c.aw % 2 ^ (Nat.log2 c.size - c.shift))) % 2 ^ c.saw :=
+  Remap.mapAdr_no_regions c h a
+
+/-- What the map is, with regions: an address whose origin-remapped byte address lies in source region `g` (and
+    in no later one) goes to `g.dstOrigin + (src_adr − g.srcOrigin)`, as a word address. -/
+theorem remap_region (c : RemapCfg) (l1 l2 : List RemapRegion) (g : RemapRegion) (h : c.regions = l1 ++ g :: l2)
+    (a : Nat) (hg : Remap.regionActive c g a = true) (h2 : ∀ g' ∈ l2, Remap.regionActive c g' a = false) :
+    Remap.mapAdr c a =
+      (((g.dstOrigin + Remap.srcAdr c a - g.srcOrigin) % 2 ^ Remap.tmpBits c) >>> c.shift) % 2 ^ c.saw := by
+  simp only [Remap.mapAdr, h, Remap.applyRegions_last c a l1 l2 g _ hg h2, Remap.regionAdr]
+
+/-! ## Wishbone2CSR -/
+
+/-- **`wishbone.Wishbone2CSR` over a CSR register file is a flat memory of CSR words** — both `register`
+    modes, every gap — provided every write selects all byte lanes or none (`_partial`: the CSR bus has no byte
+    enables, see the negative witness below).  A cycle with `sel = 0` performs no CSR access and leaves the
+    registers unchanged; reads with any `sel` return the addressed word.
+
+    Full statement (fails, witness below): the same without `FullSelWrites`. -/
+theorem wb2csr_refines_partial (c : ToCsrCfg) (init : Mem) (ins : List (Req × Unit))
+    (hm : Classic (wb2csrOver c init) ins) (hsel : ∀ i ∈ ins, ToCsr.FullSelWrites c i) :
+    Consistent c.nb init (ops (wb2csrOver c init) (ToCsr.adrMap c) ins) ∧
+    AckOnlyStrobed (wb2csrOver c init) ins :=
+  (ToCsr.refines c init).run init (ToCsr.inv_init c init) ins hm hsel
+
+/-- Negative witness for the excluded region: a 16-bit bridge, write of lane 0 only (`sel = 01`) to a register
+    holding `[5, 6]`, then a full read: the read returns `[0x11, 0x22]` — the unselected byte was overwritten —
+    so the history is *not* a flat byte-memory history. -/
+example :
+    let c : ToCsrCfg := { nb := 2, register := true, shift := 0, caw := 14 }
+    let w : Req := { cyc := true, stb := true, we := true, adr := 0, sel := [true, false], dat := [0x11, 0x22], cti := 0, bte := 0 }
+    let r : Req := { w with we := false, sel := [true, true], dat := [] }
+    let ins : List (Req × Unit) := [(w, ()), (w, ()), (w, ()), (r, ()), (r, ()), (r, ())]
+    Classic (wb2csrOver c (Mem.ofList [5, 6])) ins ∧
+    ops (wb2csrOver c (Mem.ofList [5, 6])) (ToCsr.adrMap c) ins =
+      [{ adr := 0, we := true, sel := [true, false], dat := [0x11, 0x22] },
+       { adr := 0, we := false, sel := [true, true], dat := [0x11, 0x22] }] ∧
+    ¬ Consistent c.nb (Mem.ofList [5, 6]) (ops (wb2csrOver c (Mem.ofList [5, 6])) (ToCsr.adrMap c) ins) := by
+  decide
+
+/-! ## Compositions with the real SRAM model (the SoC's usual stacks) -/
 
 /-- **`master → DownConverter → SRAM` is a flat byte memory** (`converter_over_sram`, narrowing direction).
     The SRAM has `2^n = ratio · dm` words of the narrow width; the master sees `dm` wide words (addresses wrap
@@ -147,7 +190,7 @@ theorem down_over_sram_refines (c : DownCfg) (sc : SramCfg) (init : List Byte) (
   exact (Down.refines c (sram sc init) sc.idx (· % dm) (Sram.Inv sc)
       (fun a k hk => by
         simp only [Sram.idx_pow2 sc n hdepth haw, hdm]
-        exact mod_split c.ratio dm a k hk hdmpos)
+        exact Down.mod_split c.ratio dm a k hk hdmpos)
       (fun _ => True) (Sram.NoBurst sc) (fun _ _ _ _ => by simp [Sram.NoBurst, Sram.adrBurst, hnb0]) hS).run _
     ⟨Down.ratio_pos c, rfl, Sram.inv_init sc init⟩ ins hm (fun _ _ => trivial)
 
